@@ -190,7 +190,7 @@ impl CState {
                     )
                 }
                 "zdrive" => {
-                    // zdrive <in> <chunk:out,...>: mz_inflate driven over the input, each call offered the next
+                    // zdrive <in> <chunk:out[:flush],...>: mz_inflate driven over the input, each call offered the next
                     // unconsumed bytes; prints total_out:adler after every call (first 80)
                     let data = self.bytes(a[1], input);
                     let items: Vec<Vec<u64>> = a[2].split(',').map(|it| it.split(':').map(|x| n(x) as u64).collect()).collect();
@@ -201,16 +201,28 @@ impl CState {
                     let mut all: Vec<u8> = Vec::new();
                     let mut last = 0;
                     let mut stall = 0;
+                    let mut finishing = false;
                     while calls < 100000 {
                         let it = &items[calls % items.len()];
-                        let end = off.saturating_add(it[0] as usize).min(data.len());
+                        if it.len() > 2 && it[2] == 4 {
+                            finishing = true;
+                        }
+                        // Finish promises that all input is present: from the first Finish on, everything left is offered
+                        let end = if finishing { data.len() } else { off.saturating_add(it[0] as usize).min(data.len()) };
                         let inb = Guarded::from(&data[off..end]);
                         let outb = Guarded::new(it[1] as usize, 0x55);
                         zs.next_in = inb.ptr as *const u8;
                         zs.avail_in = inb.len as c_uint;
                         zs.next_out = outb.ptr;
                         zs.avail_out = outb.len as c_uint;
-                        let r = mz_inflate(&mut **zs, 0);
+                        let mut fl = if it.len() > 2 { it[2] as c_int } else { 0 };
+                        if fl == 4 {
+                            finishing = true;
+                        }
+                        if finishing {
+                            fl = 4; // Finish is sticky in a legal schedule
+                        }
+                        let r = mz_inflate(&mut **zs, fl);
                         let ic = inb.len - zs.avail_in as usize;
                         let oc = outb.len - zs.avail_out as usize;
                         all.extend_from_slice(&outb.slice()[..oc.min(outb.len)]);
